@@ -69,6 +69,7 @@ fn main() {
                 "C11" | "C16" | "C17" | "C18" => gen_mach::gen(prop, seed, thorough, &mut out),
                 "C01" | "C02" | "C09" | "C10" => gen_map::gen(prop, seed, thorough, &mut out),
                 "C20" => gen_rec::gen(seed, thorough, &mut out),
+                "C20M" => gen_map::gen("C20", seed, thorough, &mut out),
                 "C13" => gen_gh::gen(seed, thorough, &mut out),
                 _ => panic!("unknown property"),
             }
@@ -81,6 +82,7 @@ fn main() {
                 "C11" | "C16" | "C17" | "C18" => gen_mach::oracle(prop),
                 "C01" | "C02" | "C09" | "C10" => gen_map::oracle(prop),
                 "C11T" => gen_map::oracle("C11"),
+                "C20M" => gen_map::oracle("C20"),
                 "C20" => gen_rec::oracle(),
                 "C13" => gen_gh::oracle(),
                 _ => panic!("unknown property"),
